@@ -21,6 +21,9 @@ EXPL = (
     "output. R4 no call to clocks, random numbers, environment variables, thread ids or pointer formatting from any "
     "local function. R5 initial state: abstract run of VM::new: every register field is the constant 0 except "
     "FLAGS=F000h and CS=FFFFh, memory is a freshly zeroed boxed array; Default::default delegates to new. "
+    "R6 residual state: on every action path of the assembler, error paths included, the names really inserted into the "
+    "set of macros being expanded equal the names removed and source locks equal unlocks (unless Context::clear resets "
+    "the field): a Context that has processed a rejected source answers the next one like a fresh Context. "
     "NOT decided: byte-identity of whole outputs (follows from R1-R4 only as far as std's own determinism goes); "
     "OS thread scheduling is irrelevant because R1/R2 leave nothing shared."
 )
